@@ -40,8 +40,8 @@ class Proj:
 
 def gen_project(rng, lim):
     p = Proj(rng)
-    dirs = ["", "src/", "src/gen/", "src/util/", "vendor/", "vendor/deep/", "tests/", "docs/", "a/b/c/"]
-    names = ["a.rs", "b.rs", "c.py", "d.go", "e.js", "notes.txt", "Makefile", "x.gen.rs", ".hidden.rs", "big.rs", "w.rs", "t_test.rs", "data.bin"]
+    dirs = ["", "src/", "src/gen/", "src/util/", "vendor/", "vendor/deep/", "tests/", "docs/", "a/b/c/", "docs/build/", "src/build/"]
+    names = ["a.rs", "b.rs", "c.py", "d.go", "e.js", "notes.txt", "Makefile", "x.gen.rs", ".hidden.rs", "big.rs", "w.rs", "t_test.rs", "data.bin", "gen.rs"]
     n = rng.randint(4, 14)
     for _ in range(n):
         d, nm = rng.choice(dirs), rng.choice(names)
@@ -61,7 +61,8 @@ def gen_config(rng, lim, anchored_ok):
          "warn": rng.choice([("thr", 0.9), ("thr", 0.5), ("thr", 1.0), ("at", max(0, lim - 2)), ("thr", 0.8)]),
          "skip_comments": rng.random() < 0.8, "skip_blank": rng.random() < 0.8,
          "content_exclude": rng.choice([[], [pat("src/gen/**")], ["**/*.gen.rs"], [pat("docs/**"), "**/t_*.rs"]]),
-         "scanner_exclude": rng.choice([[], ["**/vendor/**"], ["*.bin"], ["**/vendor/**", "*.txt"]]),
+         "scanner_exclude": rng.choice([[], ["**/vendor/**"], ["*.bin"], ["**/vendor/**", "*.txt"]] +
+                                       ([["docs/build/**"], ["gen.rs", "*.bin"], ["docs/build/**", "gen.rs"]] if anchored_ok else [])),
          "rules": [], "gitignore": rng.choice([[], ["vendor/"], ["*.py"], ["src/gen/g*.rs", "docs/"], ["/tests/"]]),
          "structure": rng.choice([None, None, {"max_files": rng.choice([1, 2, 3, 5])}, {"max_dirs": rng.choice([0, 1, 2])},
                                   {"max_files": 3, "max_dirs": 2, "max_depth": rng.choice([1, 2, 3])}]),
@@ -170,9 +171,14 @@ def ceil_pct(limit, t):
     return max(0, int(v))
 
 
-def oracle(proj, cfg, flags, glob, baseline_keys):
+def oracle(proj, cfg, flags, glob, baseline_keys, basename_reading=False):
     """documented scoping + limit semantics -> (facts, structure results, exit-relevant booleans).
-    Paths are the canonical walked spelling ./rel ; patterns are matched against rel."""
+    Paths are the canonical walked spelling ./rel ; patterns are matched against rel.
+    A scanner exclude takes out what it matches as a path (filter.rs; a directory is pruned when the pattern
+    without its trailing /** matches it, i.e. when all of its content is covered). basename_reading=True
+    computes instead what StructureScanConfig::is_scanner_excluded does when a [structure] section exists
+    (bare-name matches and the directory-name fallback): used ONLY to classify a disagreement as the
+    recorded finding K01_basename_exclude, never as the expected answer."""
     use_gi = not flags["no_gitignore"]
     sc_ex = [".git/**"] + cfg["scanner_exclude"] + flags["exclude"]
     exts = flags["ext"].split(",") if flags["ext"] else cfg["extensions"]
@@ -182,7 +188,9 @@ def oracle(proj, cfg, flags, glob, baseline_keys):
     # which directories survive (pruned: ignored or scanner-excluded); with a [structure] section the
     # directory-name fallback of `…/**` patterns also prunes by basename
     dir_names = []
-    if cfg["structure"]:
+    dir_pats = [p[:-3] for p in sc_ex if p.endswith("/**") and p[:-3]]
+    quirk = basename_reading and bool(cfg["structure"])
+    if quirk:
         for p in sc_ex:
             if p.endswith("/**"):
                 last = p[:-3].rsplit("/", 1)[-1]
@@ -198,9 +206,9 @@ def oracle(proj, cfg, flags, glob, baseline_keys):
             if use_gi and gitignored(sub, True, cfg["gitignore"]):
                 return True
             name = comps[i - 1]
-            if any(glob.m(p, name) or glob.m(p, sub) for p in sc_ex):
+            if any(glob.m(p, sub) for p in sc_ex) or any(glob.m(q, sub) for q in dir_pats):
                 return True
-            if name in dir_names:
+            if quirk and (any(glob.m(p, name) for p in sc_ex) or name in dir_names):
                 return True
         return False
 
@@ -212,7 +220,7 @@ def oracle(proj, cfg, flags, glob, baseline_keys):
         scanned = not dir_pruned(d)
         if scanned and use_gi and gitignored(rel, False, cfg["gitignore"]):
             scanned = False
-        if scanned and any(glob.m(p, name) or glob.m(p, rel) for p in sc_ex):
+        if scanned and any(glob.m(p, rel) or (quirk and glob.m(p, name)) for p in sc_ex):
             scanned = False
         if rel in (".sloc-guard.toml", ".gitignore"):
             pass
@@ -408,6 +416,18 @@ def run(ctx):
                 hist["rules%d" % len(cfg["rules"])] = hist.get("rules%d" % len(cfg["rules"]), 0) + 1
                 if any(s != "passed" for (_, _, s) in cres):
                     nontrivial.add(json.dumps([toml_of(cfg), sorted(proj.files.items()), sorted(flags.items(), key=str)], default=str))
+                if (cres != mres or rc != mexit) and cfg["structure"]:
+                    # the recorded finding: the structure-aware scanner also applies excludes to bare names
+                    qf, qs = oracle(proj, cfg, flags, glob, baseline, basename_reading=True)
+                    if [f["scanned"] for f in qf] != [f["scanned"] for f in facts] or qs != sres:
+                        qo, _, _ = run_lines(model, [model_line(qf, qs, flags, cfg, baseline)])
+                        qexit, qres = parse_model(qo[0]) if qo else (None, None)
+                        lost = sorted(f["path"] for f, g in zip(facts, qf) if f["scanned"] and not g["scanned"])
+                        if qres == cres and qexit == rc and lost and ctx.known("K01_basename_exclude", "files dropped: %s" % lost[:4]):
+                            hist["known_basename_exclude"] = hist.get("known_basename_exclude", 0) + 1
+                            if "known_example" not in ctx.cov:
+                                ctx.cov["known_example"] = {"config": toml_of(cfg), "lost": lost[:6], "cli_exit": rc, "spec_exit": mexit}
+                            continue
                 if cres != mres or rc != mexit:
                     d1 = [x for x in cres if x not in mres]
                     d2 = [x for x in mres if x not in cres]
